@@ -280,7 +280,7 @@ const SUFFIXES: [&str; 16] = [
 pub fn neighbour(r: &mut Rng, v: &str, letters: bool) -> String {
     for _ in 0..20 {
         let mut t = split_tokens(v);
-        let cand = match r.below(10) {
+        let cand = match r.below(11) {
             0 => format!("{v}{}", SUFFIXES[r.below(SUFFIXES.len())]),
             1 if !t.is_empty() => {
                 let i = r.below(t.len());
@@ -345,6 +345,13 @@ pub fn neighbour(r: &mut Rng, v: &str, letters: bool) -> String {
                 t.concat()
             }
             8 => respell_number(r, v),
+            9 => {
+                let z = zero_swaps(v);
+                if z.is_empty() {
+                    continue;
+                }
+                r.pick(&z).clone()
+            }
             _ => {
                 // one more revision marker: behind the version, or in front of
                 // one of its separators (the last one read is the revision)
@@ -506,6 +513,38 @@ pub fn digits_and_separators(k: usize) -> Vec<String> {
         }
         out.extend(next.iter().cloned());
         layer = next;
+    }
+    out
+}
+
+/// Every version that differs from `v` in one zero-valued token spelt as
+/// another zero-valued token (`0`, `.`, `_`, `pl` all read as a component 0):
+/// equal in value to `v`, different in how a reader that splits at
+/// separators sees it ("1.0.7" / "1...7" / "1._.7").
+pub fn zero_swaps(v: &str) -> Vec<String> {
+    const Z: [&str; 4] = ["0", ".", "_", "pl"];
+    let t = split_tokens(v);
+    let mut out = vec![];
+    for i in 0..t.len() {
+        if !Z.contains(&t[i].as_str()) {
+            continue;
+        }
+        // a "0" between digits would merge with them: only swap a digit-run
+        // token "0" when its neighbours are not digit runs (split_tokens keeps
+        // digit runs whole, so a token "0" is a whole run)
+        for z in Z {
+            if z == t[i] {
+                continue;
+            }
+            let prev_digit = i > 0 && t[i - 1].bytes().all(|b| b.is_ascii_digit());
+            let next_digit = i + 1 < t.len() && t[i + 1].bytes().all(|b| b.is_ascii_digit());
+            if z == "0" && (prev_digit || next_digit) {
+                continue;
+            }
+            let mut u = t.clone();
+            u[i] = z.to_string();
+            out.push(u.concat());
+        }
     }
     out
 }
